@@ -287,7 +287,13 @@ class Compiler:
 
     def _add_constant(self, value: Any) -> int:
         """Add a constant and return its index."""
-        if value in self.constants:
+        if isinstance(value, CompiledFunction):
+            # Two functions with the same code are still two functions (their
+            # names and source text may differ): never shared
+            for i, existing in enumerate(self.constants):
+                if existing is value:
+                    return i
+        elif value in self.constants:
             return self.constants.index(value)
         self.constants.append(value)
         return len(self.constants) - 1
@@ -586,7 +592,7 @@ class Compiler:
             for decl in node.declarations:
                 name = decl.id.name
                 if decl.init:
-                    self._compile_expression(decl.init)
+                    self._compile_named_value(decl.init, decl.id.name)
                 else:
                     # The binding exists since entry; without an initialiser
                     # the declaration leaves its value alone
@@ -1012,6 +1018,20 @@ class Compiler:
             raise NotImplementedError(
                 f"Cannot compile statement: {type(node).__name__}"
             )
+
+    def _compile_named_value(self, node: Node, name: Optional[str]) -> None:
+        """Compile an expression that initialises something called `name`; an
+        anonymous function or arrow written there is known by that name
+        (its `name` property), without binding the name inside its body."""
+        before = len(self.functions)
+        self._compile_expression(node)
+        if (
+            name
+            and len(self.functions) > before
+            and isinstance(node, (FunctionExpression, ArrowFunctionExpression))
+            and not getattr(node, "id", None)
+        ):
+            self.functions[-1].display_name = name
 
     def _compile_function_declaration(self, node: FunctionDeclaration) -> None:
         """Create the function of a declaration and bind its name."""
@@ -1439,8 +1459,16 @@ class Compiler:
                     kind = "field"
                 kind_idx = self._add_constant(kind)
                 self._emit(OpCode.LOAD_CONST, kind_idx)
-                # Value
-                self._compile_expression(prop.value)
+                # Value; an anonymous function takes the property's name
+                key_name = None
+                if not prop.computed:
+                    if isinstance(prop.key, Identifier):
+                        key_name = prop.key.name
+                    elif isinstance(prop.key, StringLiteral):
+                        key_name = prop.key.value
+                if key_name is not None and prop.kind in ("get", "set"):
+                    key_name = prop.kind + " " + key_name
+                self._compile_named_value(prop.value, key_name)
             self._emit(OpCode.BUILD_OBJECT, len(node.properties))
 
         elif isinstance(node, UnaryExpression):
@@ -1672,7 +1700,7 @@ class Compiler:
             if isinstance(node.left, Identifier):
                 name = node.left.name
                 if node.operator == "=":
-                    self._compile_expression(node.right)
+                    self._compile_named_value(node.right, name)
                 else:
                     # Compound assignment - load current value first
                     cell_slot = self._get_cell_var(name)
